@@ -81,6 +81,8 @@ type vsNode struct {
 	Excl    bool     `json:"excl"`
 	Labels  [][2]int `json:"labels"`
 	LblVal  int      `json:"lblval,omitempty"` // selects the value of the exclude label
+	// the NetworkUnavailable condition is PRESENT with status False (without it a node that is not unavailable has no such condition at all)
+	CondFalse bool `json:"cond_false,omitempty"`
 }
 type vsEv struct {
 	Op       string  `json:"op"` // svc del cfg node spk resync
@@ -549,6 +551,8 @@ func vsBuildNode(n *vsNode) *v1.Node {
 	}
 	if n.Unavail {
 		o.Status.Conditions = []v1.NodeCondition{{Type: v1.NodeNetworkUnavailable, Status: v1.ConditionTrue}}
+	} else if n.CondFalse {
+		o.Status.Conditions = []v1.NodeCondition{{Type: v1.NodeReady, Status: v1.ConditionTrue}, {Type: v1.NodeNetworkUnavailable, Status: v1.ConditionFalse}}
 	}
 	return o
 }
